@@ -190,6 +190,20 @@ pub(crate) fn rec_reset_impl() {
     }
 }
 
+/// Bridge for the D7 family (tsig_reserve.rs, a child of src/server/mod.rs): a
+/// ReadTsigRr whose names are views of static representations (`*_repr` =
+/// n_labels, label offsets, wire form), with an empty MAC.  What
+/// ReadTsigRr::try_from would build for such an RR, without walking the (long)
+/// names octet by octet.  The value must be mem::forget-ed.
+pub(crate) fn view_tsig_rr_impl(key_repr: &'static [u8], alg_repr: &'static [u8], rdata: &'static [u8]) -> ReadTsigRr<'static> {
+    ReadTsigRr {
+        key_name: boxed_view(key_repr),
+        algorithm: boxed_view(alg_repr),
+        mac_size: 0,
+        rdata: Cow::Borrowed(rdata.try_into().unwrap()),
+    }
+}
+
 pub(crate) fn rec_force_impl(v: u8) {
     unsafe {
         FORCE_VERDICT = v;
@@ -890,7 +904,7 @@ fn view_matches(view: &Name, wire: &[u8]) {
     }
 }
 
-// @harness props=C11,C10 tier=quick mem=4 t=600 kani="--no-assertion-reach-checks"
+// @harness props=C11,C10,C01 quick=C11,C10,C01 tier=quick mem=4 t=600 kani="--no-assertion-reach-checks"
 //   fn="Algorithm::name,Name::try_from_uncompressed_all,Name::wire_repr,Name::len,Name::wire_repr_from"
 //   bound="the three static name representations used as inputs ('k.', 'hmac-sha1.', 'hmac-sha256.') against Name::try_from_uncompressed_all, and Algorithm::name() (the real lazy_static names) against the RFC 8945 algorithm names; concrete; unwind 16"
 //   sym="none"
